@@ -225,8 +225,9 @@ func (w *bannerResponseWriter) Write(bs []byte) (int, error) {
 
 // Proxy builds an HTTP handler that proxies to a wrapped handler but injects the given HTML banner into every HTML response.
 func Proxy(ctx context.Context, wrapped http.Handler, bannerHTML, bannerHeight, favIconURL string, metricHandler *metrics.MetricHandler) (http.Handler, error) {
-	mux := http.NewServeMux()
-	mux.HandleFunc("/", func(w http.ResponseWriter, r *http.Request) {
+	// This is deliberately not an `http.ServeMux`, as that answers requests for non-canonical
+	// paths (e.g. "/a//b") with a redirect instead of passing them on to the backend.
+	handler := http.HandlerFunc(func(w http.ResponseWriter, r *http.Request) {
 		if !isHTMLRequest(r) {
 			wrapped.ServeHTTP(w, r)
 			return
@@ -242,5 +243,5 @@ func Proxy(ctx context.Context, wrapped http.Handler, bannerHTML, bannerHeight, 
 		}
 		wrapped.ServeHTTP(w, r)
 	})
-	return mux, nil
+	return handler, nil
 }
